@@ -89,6 +89,26 @@ func methodSigSummary(name string, nargs int) (hasErr int, nres int, errParam bo
 	return
 }
 
+// do the same-named methods with `nargs` parameters and exactly `nres` results agree on a final error result?
+func methodErrByArity(name string, nargs, nres int) int {
+	out, first := unknown, true
+	for _, s := range sigsByMethod[name] {
+		if !(s.nparams == nargs || (s.variadic && nargs >= s.nparams-1)) || s.nres != nres {
+			continue
+		}
+		h := no
+		if s.errLast {
+			h = yes
+		}
+		if first {
+			out, first = h, false
+		} else if out != h {
+			return unknown
+		}
+	}
+	return out
+}
+
 func (t *tr) passesCtx(call *ast.CallExpr) bool {
 	if t.fn.ctxParam == "" {
 		return false
@@ -148,6 +168,67 @@ func (t *tr) resolveType(e ast.Expr) (*Pkg, string, bool) {
 	return nil, "", false
 }
 
+func fieldTypeName(e ast.Expr) string {
+	for {
+		switch x := e.(type) {
+		case *ast.StarExpr:
+			e = x.X
+			continue
+		case *ast.ParenExpr:
+			e = x.X
+			continue
+		case *ast.SelectorExpr:
+			return x.Sel.Name
+		case *ast.Ident:
+			return x.Name
+		}
+		return ""
+	}
+}
+
+// resolve a type expression written in a file of package p (field types of p's structs)
+func resolveTypeIn(p *Pkg, e ast.Expr) (*Pkg, string, bool) {
+	for {
+		switch x := e.(type) {
+		case *ast.StarExpr:
+			e = x.X
+			continue
+		case *ast.ParenExpr:
+			e = x.X
+			continue
+		}
+		break
+	}
+	switch x := e.(type) {
+	case *ast.Ident:
+		if _, ok := p.types[x.Name]; ok {
+			return p, x.Name, true
+		}
+		for _, f := range p.files {
+			for _, d := range f.dots {
+				if q := pkgsByPath[d]; q != nil {
+					if _, ok := q.types[x.Name]; ok {
+						return q, x.Name, true
+					}
+				}
+			}
+		}
+	case *ast.SelectorExpr:
+		if id, ok := x.X.(*ast.Ident); ok {
+			for _, f := range p.files {
+				if path, ok := f.imports[id.Name]; ok {
+					if q := pkgsByPath[path]; q != nil {
+						if _, ok := q.types[x.Sel.Name]; ok {
+							return q, x.Sel.Name, true
+						}
+					}
+				}
+			}
+		}
+	}
+	return nil, "", false
+}
+
 // the static type of a receiver expression, when the source says it in so many words
 func (t *tr) receiverType(e ast.Expr) (*Pkg, string, bool) {
 	e = unparen(e)
@@ -155,6 +236,25 @@ func (t *tr) receiverType(e ast.Expr) (*Pkg, string, bool) {
 	case *ast.Ident:
 		if v := t.lookup(x.Name); v != nil && v.typ != nil {
 			return t.resolveType(v.typ)
+		}
+	case *ast.SelectorExpr:
+		// x.F where x has a declared struct type of a parsed package and F is one of its (possibly embedded) fields
+		if p, tn, ok := t.receiverType(x.X); ok {
+			if st, ok := p.types[tn].(*ast.StructType); ok {
+				for _, f := range st.Fields.List {
+					if len(f.Names) == 0 {
+						if fieldTypeName(f.Type) == x.Sel.Name {
+							return resolveTypeIn(p, f.Type)
+						}
+						continue
+					}
+					for _, n := range f.Names {
+						if n.Name == x.Sel.Name {
+							return resolveTypeIn(p, f.Type)
+						}
+					}
+				}
+			}
 		}
 	case *ast.UnaryExpr:
 		if cl, ok := x.X.(*ast.CompositeLit); ok && cl.Type != nil {
@@ -216,15 +316,29 @@ func (t *tr) classify(call *ast.CallExpr) callInfo {
 			}
 		}
 		name := f.Sel.Name
+		if (name == "Err" || name == "Done" || name == "Deadline") && nargs == 0 {
+			// a context reached through something other than the function's own context parameter
+			return callInfo{kind: kBad, name: name, why: "context-style call ." + name + "() on something that is not the function's context parameter"}
+		}
 		if _, ok := engineMethods[name]; ok {
 			return callInfo{kind: kEngine, name: name, hasErr: yes, nres: 2, verdict: true, passesCtx: pc}
 		}
 		// receiver of a known concrete type with that very method
-		if p, tn, ok := t.receiverType(f.X); ok && p.repo {
+		if p, tn, ok := t.receiverType(f.X); ok {
 			if m := p.methods[tn][name]; m != nil {
-				ci := staticInfo([]*Fn{m}, false, m.id)
-				ci.passesCtx = pc
-				return ci
+				if p.repo {
+					ci := staticInfo([]*Fn{m}, false, m.id)
+					ci.passesCtx = pc
+					return ci
+				}
+				// a method of a library type whose declaration was parsed: a leaf with a known signature
+				if pc {
+					return callInfo{kind: kBad, name: name, why: "the context is handed to library method " + p.name + "." + tn + "." + name}
+				}
+				if m.errIdx < 0 {
+					return callInfo{kind: kPure, name: name, hasErr: no, nres: m.nres}
+				}
+				return callInfo{kind: kLib, name: p.name + "." + tn + "." + name, hasErr: yes, nres: m.nres, errParam: m.errParam != ""}
 			}
 		}
 		var cands []*Fn
